@@ -134,13 +134,20 @@ def table_xml(spec) -> str:
     need = max([1] + [sum(((c or {}).get("r", 1) or 1) for c in r.get("cells", [])) for r in spec.get("rows", [])])
     if have < need:
         cols.append({"r": need - have} if need - have > 1 else {})
+    colx = []
     for c in cols:
         a = ""
         if c.get("s"):
             a += f' table:style-name="{_esc(c["s"])}"'
         if (c.get("r", 1) or 1) > 1:
             a += f' table:number-columns-repeated="{c["r"]}"'
-        out.append(f"<table:table-column{a}/>")
+        colx.append(f"<table:table-column{a}/>")
+    if spec.get("wrap_cols") == "columns":
+        out.append("<table:table-columns>" + "".join(colx) + "</table:table-columns>")
+    elif spec.get("wrap_cols") == "header" and len(colx) > 1:
+        out.append("<table:table-header-columns>" + colx[0] + "</table:table-header-columns>" + "".join(colx[1:]))
+    else:
+        out.extend(colx)
     hdr = spec.get("header_rows", 0)
     rows = []
     for r in spec.get("rows", []):
@@ -801,6 +808,8 @@ def features(op, tv: xmlref.TableView) -> list:
         f.add("arg_reused")
     if tv.grouped_rows:
         f.add("has_row_group")
+    if tv.grouped_cols:
+        f.add("has_col_group")
     if H == 0:
         f.add("no_rows")
     if W == 0:
